@@ -65,7 +65,7 @@ func (s *c14State) observe(format string, a ...any) {
 }
 
 func C14(c *core.Ctx, replay string) {
-	c.Rule = "Every case is an input of the policy language executed against the real code: (a) pattern x subject against auth.Resources.Match/FindMatch (and, sampled, as a real GET under a policy naming the pattern), (b) policy x JSON shape x (caller, action, resource) against auth.VerifyBucketPolicy and as real signed requests by non-admin users after PUT ?policy, (c) invalid documents against auth.ValidatePolicyDocument and PUT ?policy (then GET ?policy and probes of the previous policy). Expected values are computed by TLC from S3Auth.tla. Non-trivial (distinct_nontrivial): glob pairs whose pattern has a wildcard and that match; policies with at least one query the specification allows or a Deny statement (the (policy, query) pairs of that kind are counted in policy_queries_nontrivial); document renderings the specification calls invalid."
+	c.Rule = "Every case is an input of the policy language executed against the real code: (a) pattern x subject against auth.Resources.Match/FindMatch (and, sampled, as a real GET under a policy naming the pattern), (b) policy x JSON shape x (caller, action, resource) against auth.VerifyBucketPolicy and as real signed requests by non-admin users after PUT ?policy, (c) invalid documents against auth.ValidatePolicyDocument and PUT ?policy (then GET ?policy and probes of the previous policy). Expected values are computed by TLC from S3Auth.tla. Non-trivial (distinct_nontrivial): glob pairs whose pattern has a wildcard and that match; policies with at least one query the specification allows or a Deny statement (the (policy, query) pairs of that kind are counted in policy_queries_nontrivial); document renderings the specification calls invalid. Every other end-to-end bucket carries an ACL granting every test account full control (a stored policy decides alone)."
 	c.Assumptions = []string{
 		"strings are ASCII: `?` = exactly one character is checked for one-byte characters only (the evaluator compares bytes; a multi-byte UTF-8 character needs one `?` per byte - recorded as an observation, not judged)",
 		"a request is 'allowed' end-to-end iff the answer is anything but 403 AccessDenied (the object may be missing); the caller is a role=user account without any ACL grant, so the bucket policy alone decides",
